@@ -1038,6 +1038,14 @@ func c12Round6(c *Ctx, x *c12Ctx) {
 					if rep%2 == 1 {
 						lt.idx = append(lt.idx, base+3*cols/4, (base+2)%cols)
 					}
+					// (small rings: the offsets may coincide — give those indexes distinct, unused ones)
+					seenIdx := map[int]bool{}
+					for k := range lt.idx {
+						for seenIdx[lt.idx[k]%cols] {
+							lt.idx[k] = (lt.idx[k] + 1) % cols
+						}
+						seenIdx[lt.idx[k]%cols] = true
+					}
 					lt.alias = map[int]int{}
 					d0 := randDiag()
 					for k := range lt.idx {
